@@ -13,17 +13,3 @@ ENGINES = [
 NOTES = ("All checks rebuild from /repo's working tree through ninja in /verif/build/san (g++ ASan+UBSan, -DABORT_ON_FAILED_ASSUME) before running. "
          "Exit 2 = broken run (build failure / degenerate generator), never a violation.")
 NOT_APPLICABLE = {}
-META = {
-    "C03": {
-        "level_text": "Generated search (1.5M structured transactions per quick run, boundary-biased) plus an exhaustive 2^9 x 4 rule-combination table, each compared on (accept, reject reason) with a reference model written from the statement. Exploration: it samples the input space; it does not prove the iff.",
-        "technique": "property-based testing: structured generator + independent reference model (differential), exhaustive rule table",
-    },
-    "C09": {
-        "level_text": "Generated reorg histories on a real in-process regtest node; after every check point the coins DB dump must equal an independent from-scratch replay (RefLedger) of the active chain, hash_serialized must repeat per tip, and a fresh twin node fed only the active chain must agree. Exploration over bounded histories.",
-        "technique": "stateful property-based testing: operation histories vs independent ledger model + twin-run differential",
-    },
-    "C31": {
-        "level_text": "Every non-negative 32-bit height for every distinct halving interval of the built-in chains is enumerated and compared with the closed form (value, monotonicity, chunk sums, total < 21M BTC): exhaustive for the stated domain. Category kept at exploration because the deciding step is still executed search, not proof.",
-        "technique": "exhaustive enumeration of the input domain vs closed-form reference (property-based, exhaustive:true)",
-    },
-}
